@@ -197,6 +197,10 @@ class AbsCompiled(Native):
             return self.pattern
         if name == "flags":
             return self.flags
+        if name == "groups":
+            return self.hooks.n_groups()
+        if name == "groupindex":
+            return self.hooks.group_index()
         raise Incomplete(f"compiled.{name} not modelled")
 
 
@@ -261,7 +265,7 @@ class MatchHooks(PregexHooks):
         b = dict(ba.arguments)
         rec = {"via": via, "entry": name, "pattern": b.get("pattern", compiled.pattern if compiled else None),
                "subject": b.get("string"), "flags": b.get("flags", compiled.flags if compiled else 0),
-               "count": b.get("count"), "repl": b.get("repl"),
+               "count": b.get("count"), "repl": b.get("repl"), "maxsplit": b.get("maxsplit"),
                "pos": b.get("pos"), "endpos": b.get("endpos")}
         self.calls.append(rec)
         if name == "compile":
@@ -277,8 +281,32 @@ class MatchHooks(PregexHooks):
         if name in ("sub", "subn"):
             return f"<re.sub pattern={rec['pattern']!r} repl={rec['repl']!r} string={subject!r} count={rec['count']!r} flags={int(rec['flags'])}>"
         if name == "split":
-            return ["<re.split>"]
+            # what re.split returns for the abstract matches: the pieces between them, each followed by the groups of the
+            # match that ended it (None for a group that did not take part); at most `maxsplit` matches are used
+            ms = list(self.matches_for(subject)) if isinstance(subject, str) else []
+            limit = b.get("maxsplit") or 0
+            if isinstance(limit, int) and not isinstance(limit, bool) and limit > 0:
+                ms = ms[:limit]
+            parts, idx = [], 0
+            for m in ms:
+                parts.append(subject[idx:m.s])
+                parts.extend(m.value_of(i + 1) for i in range(len(m.grps)))
+                idx = m.e
+            parts.append(subject[idx:] if isinstance(subject, str) else subject)
+            return parts
         raise Incomplete(f"re.{name} not modelled")
+
+    def _sample_matches(self):
+        subj = next((c.get("subject") for c in reversed(self.calls) if isinstance(c.get("subject"), str)), TEXT)
+        return list(self.matches_for(subj)) or list(self.matches_for(TEXT))
+
+    def n_groups(self):
+        ms = self._sample_matches()
+        return len(ms[0].grps) if ms else 0
+
+    def group_index(self):
+        ms = self._sample_matches()
+        return {g[0]: i + 1 for i, g in enumerate(ms[0].grps) if g[0]} if ms else {}
 
 
 def pregex_obj(model: Model, hooks: MatchHooks, compiled: bool):
